@@ -460,6 +460,15 @@ func (u UDP) bytes(ph func(l int) uint16, fix bool) []byte {
 	put16(b[6:], cs)
 	return b
 }
+// CsumOf4 / CsumOf6: the checksum (complement of the one's-complement sum incl.
+// pseudo-header) of the encoded datagram b as it stands.
+func (UDP) CsumOf4(b []byte, src, dst [4]byte) uint16 {
+	return ^Sum16(b, pseudo4(src, dst, ProtoUDP, len(b)))
+}
+func (UDP) CsumOf6(b []byte, src, dst [16]byte) uint16 {
+	return ^Sum16(b, pseudo6(src, dst, ProtoUDP, len(b)))
+}
+
 func (u UDP) Bytes4(src, dst [4]byte, fix bool) []byte {
 	return u.bytes(func(l int) uint16 { return pseudo4(src, dst, ProtoUDP, l) }, fix)
 }
